@@ -8,8 +8,14 @@ def errName : Err → String
 def fmtMat (rows : List (List String)) : String :=
   "[" ++ ";".intercalate (rows.map fun r => ",".intercalate r) ++ "]"
 
+/-- a row `!v` of the value matrix is a scalar given bare -/
+def toArg (row : List String) : OptArg :=
+  match row with
+  | [s] => if s.startsWith "!" then .bare (s.drop 1).toString else .many [s]
+  | _ => .many row
+
 def mkManager (name : String) (ctxK ctxV keys : List String) (vals : List (List String)) : Manager :=
-  fromCartesian name (ctxK.zip ctxV) (keys.zip vals)
+  fromCartesianArgs name (ctxK.zip ctxV) (keys.zip (vals.map toArg))
 
 def handle (toks : List String) : String :=
   match toks with
